@@ -74,6 +74,25 @@ func init() {
 				raw, _ := json.Marshal(p)
 				out = append(out, drv.Scenario{Kind: "block", Seed: seed, Params: raw, TimeoutS: 300})
 			}
+			// at the wire: a member that starts on top of a checkpoint file written under a wider assignment (all N vBuckets
+			// in the file) requests streams for exactly its own chunk
+			nw := 12
+			if tier == "thorough" {
+				nw = 120
+			}
+			for i := 0; i < nw; i++ {
+				n := 2 + rng.Intn(15)
+				t := 1 + rng.Intn(min(n, 5))
+				k := 1 + rng.Intn(t)
+				sp := &SessSpec{NumVB: n, Nodes: 1 + rng.Intn(2), AckSeed: rng.Int63(), PNow: 1, Backend: []string{"file", "file", "mem"}[rng.Intn(3)], Backlog: map[int][][]ItemSpec{}, StaticMember: [2]int{k, t},
+					PreStore: map[int][4]uint64{}}
+				for vb := 0; vb < n; vb++ {
+					sp.Backlog[vb] = [][]ItemSpec{{{K: "m", Key: []byte(fmt.Sprintf("w%d", vb)), Val: []byte("{}")}}}
+					sp.PreStore[vb] = [4]uint64{0xabc000 + uint64(vb), 0, 0, 0}
+				}
+				sp.Steps = []Step{{Op: "sleep", Ms: 150}, {Op: "commit"}}
+				out = append(out, drv.Scenario{Kind: "wire", Seed: seed, Params: mustJSON(sp), TimeoutS: 90})
+			}
 			return out
 		},
 		Run: runC09,
@@ -112,7 +131,64 @@ func checkChunks(n, t int, chunks [][]uint16) string {
 	return ""
 }
 
+func runC09Wire(sc drv.Scenario) drv.Result {
+	var sp SessSpec
+	if err := json.Unmarshal(sc.Params, &sp); err != nil {
+		return drv.Result{Verdict: drv.Inconclusive, Detail: err.Error()}
+	}
+	tr := RunSession(&sp)
+	if tr.StartErr != "" {
+		return drv.Result{Verdict: drv.Inconclusive, Detail: tr.StartErr}
+	}
+	n, k, t := sp.NumVB, sp.StaticMember[0], sp.StaticMember[1]
+	// reference chunk: contiguous, the first n%t members hold one more
+	base, rem := n/t, n%t
+	lo := (k-1)*base + min(k-1, rem)
+	size := base
+	if k-1 < rem {
+		size++
+	}
+	want := map[int]bool{}
+	for vb := lo; vb < lo+size; vb++ {
+		want[vb] = true
+	}
+	var fs []Finding
+	got := map[int]bool{}
+	for vb, segs := range tr.Segs {
+		if len(segs) > 0 {
+			got[vb] = true
+		}
+	}
+	for vb := 0; vb < n; vb++ {
+		if got[vb] && !want[vb] {
+			fs = append(fs, Finding{"C09", "wire", "C09/wire/foreign-stream", fmt.Sprintf("member %d/%d of %d vBuckets requested a stream for vb %d, which belongs to another member's chunk [%d,%d)", k, t, n, vb, lo, lo+size)})
+		}
+		if !got[vb] && want[vb] {
+			fs = append(fs, Finding{"C09", "wire", "C09/wire/missing-stream", fmt.Sprintf("member %d/%d of %d vBuckets never requested a stream for its own vb %d", k, t, n, vb)})
+		}
+	}
+	for _, e := range tr.Events {
+		if !want[int(e.VB)] {
+			fs = append(fs, Finding{"C09", "wire", "C09/wire/foreign-event", fmt.Sprintf("member %d/%d was handed an event of vb %d", k, t, e.VB)})
+			break
+		}
+	}
+	for _, w := range storeWrites(tr) {
+		if !want[w.VB] && w.Seq != 0 {
+			fs = append(fs, Finding{"C09", "wire", "C09/wire/foreign-checkpoint", fmt.Sprintf("member %d/%d advanced the checkpoint of vb %d to %d", k, t, w.VB, w.Seq)})
+			break
+		}
+	}
+	r := sessionResult("C09", tr, fs, t >= 2, map[string]any{"kind": "wire", "N": n, "member": k, "total": t, "backend": sp.Backend, "requested": len(got)})
+	r.Checks = n
+	r.TraceHash = drv.Hash("wire", fmt.Sprint(n, k, t, sp.Backend))
+	return r
+}
+
 func runC09(sc drv.Scenario) drv.Result {
+	if sc.Kind == "wire" {
+		return runC09Wire(sc)
+	}
 	hx.QuietLogger()
 	var p c09Params
 	_ = json.Unmarshal(sc.Params, &p)
